@@ -113,6 +113,9 @@ func c11Errors() []struct {
 		{"variadic invalid-type", gen.Func("merge", gen.LitJSON("{}"), gen.LitJSON("1"))},
 		{"expression reference where a value is required (any)", gen.Func("to_array", gen.ExpRef(gen.Field("a")))},
 		{"expression reference where a value is required (any, second argument)", gen.Func("contains", gen.LitJSON("[1]"), gen.ExpRef(gen.Field("a")))},
+		{"by-expression keys of two kinds (max_by)", gen.Func("max_by", gen.LitJSON(`[{"a":1},{"a":"x"}]`), gen.ExpRef(gen.Field("a")))},
+		{"by-expression keys of two kinds (min_by, string first)", gen.Func("min_by", gen.LitJSON(`[{"a":"x"},{"a":2},{"a":"y"}]`), gen.ExpRef(gen.Field("a")))},
+		{"elements all of one non-number, non-string kind (sort)", gen.Func("sort", gen.LitJSON(`[true,false]`))},
 		{"inner call rejects what the outer call would accept", gen.Func("length", gen.Func("keys", gen.Raw("str")))},
 		{"inner call rejects an array the outer call would accept", gen.Func("length", gen.Func("values", gen.LitJSON("[1,2]")))},
 	}
